@@ -172,4 +172,18 @@ def selN (h : Nat) (tbl : List Nat) (k : Nat) (p : UInt32 × UInt32) : UInt32 ×
 /-- a 64-entry FIPS permutation of a 64-bit block -/
 def perm64 (tbl : List Nat) (p : UInt32 × UInt32) : UInt32 × UInt32 := selN 32 tbl 32 p
 
+
+/-! ### the key schedule KS of FIPS 46-3 -/
+/-- the published left-shift schedule of FIPS 46-3 -/
+def SHIFTS : List Nat := [1, 1, 2, 2, 2, 2, 2, 2, 1, 2, 2, 2, 2, 2, 2, 1]
+/-- total rotation after round r (0-based) -/
+def cumShift (r : Nat) : Nat := (SHIFTS.take (r + 1)).foldl (· + ·) 0
+/-- rotating a 28-bit half left by `s` places as a FIPS-style selection table: bit j of the result is bit ((j - 1 + s) mod 28) + 1 of the input -/
+def rotTbl (s : Nat) : List Nat := (List.range 28).map fun j => (j + s) % 28 + 1
+def rotl28 (c : UInt32) (s : Nat) : UInt32 := gather (rotTbl s) 28 c
+/-- the key schedule KS of FIPS 46-3: PC-1, cumulative left rotations of C and D, PC-2; the round key as two 24-bit halves -/
+def ksFips (raw : UInt32 × UInt32) (r : Nat) : UInt32 × UInt32 :=
+  let cd := selN 32 PC1 28 raw
+  selN 28 PC2 24 (rotl28 cd.1 (cumShift r), rotl28 cd.2 (cumShift r))
+
 end Xc.Spec.DesT
